@@ -49,7 +49,7 @@ def fd_small(rng, medium, unique, ml=False):
     return fd
 
 
-def state_desc(rng, state, unique=None, n_files=None):
+def state_desc(rng, state, unique=None, n_files=None, exact=False):
     d = {"state": state, "seed": rng.below(1 << 20)}
     unique = unique if unique is not None else set()
     if state in ("tool_cas", "peer_cas"):
@@ -63,6 +63,17 @@ def state_desc(rng, state, unique=None, n_files=None):
             fd = GF.file_desc(rng, "cas", big_ok=False, unique=unique)
             fd.update({"len": rng.choice([60000, 56000, 65535]), "content": c})
             d["files"].append(fd)
+        if exact:
+            # boundary of the size test: a tape of exactly 161,280 bytes (the harness solves for the last length)
+            d["files"][0]["len"] = d["files"][1]["len"] = 60000
+            d["files"][2]["content"] = c if c != "counter" else "zeros"
+            d["exact_size"] = 161280 + rng.choice([0, 0, 0, 1])
+    elif state == "peer_cas_hibit":
+        # a real tape's name field is 8 arbitrary bytes: here one of them has the high bit set
+        d["state"] = "peer_cas"
+        fd = fd_small(rng, "cas", unique)
+        fd["name"] = rng.choice(["CAF\u00c9", "\u0080GFX", "A\u00ffB"])
+        d["files"] = [fd]
     elif state in ("raw", "arbitrary"):
         d["len"] = rng.choice([1, 6, 300, 5000, 161279, 161281]) if rng.chance(0.3) else rng.randint(1, 2000)
         d["text"] = state == "arbitrary" and rng.chance(0.5)
@@ -148,6 +159,7 @@ class C10(HostProp):
     title = "An existing target file is never modified unless append applies to it"
     oracles = ("trace",)
     CELLS = [(cli, sw, ap, st) for cli in ("assembler", "file_util") for sw in KINDS for ap in (False, True) for st in STATES]
+    EXTRA = [(cli, sw, ap, "peer_cas_hibit") for cli in ("assembler", "file_util") for sw in KINDS for ap in (False, True)]
     rule = ("Run indices 0..107 (x8 content seeds in thorough) enumerate the full matrix {assembler.py, file_util.py} x {--to_bin, --to_cas, "
             "--to_dsk} x {append, no append} x 9 pre-existing target states (absent, empty, tool cassette, peer cassette, tool disk, peer "
             "disk, raw binary, arbitrary bytes, cassette >= 161,280 bytes); further runs are seeded sequences of 2..6 invocations over 1..3 "
@@ -160,16 +172,16 @@ class C10(HostProp):
                    "'told why' is judged as 'some text was printed', never by wording"]
 
     def budget(self, tier):
-        return 108 + 260 if tier == "quick" else 108 * 8 + 9000
+        return 120 + 260 if tier == "quick" else 120 * 8 + 9000
 
     def evidence_extra(self):
-        return {"exhaustive_matrix": True, "matrix_cells": len(self.CELLS),
+        return {"exhaustive_matrix": True, "matrix_cells": len(self.CELLS), "extra_cells_high_bit_tape_names": len(self.EXTRA),
                 "explanation": "the 108-cell matrix is enumerated completely inside every run of this check; the sequences are sampled"}
 
     def generate(self, rng, tier, i):
-        n_matrix = 108 if tier == "quick" else 108 * 8
+        n_matrix = 120 if tier == "quick" else 120 * 8
         if i < n_matrix:
-            cli, sw, ap, st = self.CELLS[i % 108]
+            cli, sw, ap, st = (self.CELLS + self.EXTRA)[i % 120]
             return self.cell(rng, cli, sw, ap, st)
         return self.sequence(rng)
 
@@ -182,7 +194,8 @@ class C10(HostProp):
 
     def cell(self, rng, cli, sw, ap, st):
         path = "target" + rng.choice(["", EXT[sw], ".dat"])
-        ops = [{"op": "setup", "path": path, **state_desc(rng, st)}]
+        # the size test of container sniffing has its boundary at exactly 161,280 bytes: always hit it for --to_dsk
+        ops = [{"op": "setup", "path": path, **state_desc(rng, st, exact=(st == "big_cas" and (sw == "dsk" or rng.chance(0.3))))}]
         src = None
         if cli == "file_util":
             src = "source.img"
@@ -199,7 +212,8 @@ class C10(HostProp):
         unique = set()
         for p in paths:
             if rng.chance(0.7):
-                ops.append({"op": "setup", "path": p, **state_desc(rng, rng.choice(STATES[:8]), unique)})
+                st = rng.choice(STATES[:8] + ["peer_cas_hibit"])
+                ops.append({"op": "setup", "path": p, **state_desc(rng, st, unique)})
         ops.append({"op": "setup", "path": "source.img", **state_desc(rng, rng.choice(["tool_cas", "peer_cas", "tool_dsk", "peer_dsk"]), unique, n_files=rng.randint(1, 2))})
         fault_used = False
         for _ in range(rng.randint(2, 6)):
@@ -249,7 +263,7 @@ class C09(HostProp):
         ops = []
         if profile == "big_tape":
             path = "big.cas"
-            ops.append({"op": "setup", "path": path, **state_desc(rng, "big_cas", unique)})
+            ops.append({"op": "setup", "path": path, **state_desc(rng, "big_cas", unique, exact=rng.chance(0.4))})
             for _ in range(rng.randint(1, 3)):
                 ops.append(self.add_op(rng, path, "cas", unique, append=True))
             if rng.chance(0.5):
